@@ -63,7 +63,8 @@ theorem C15_roundtrip (c : Codec) (g : c.Good) (fs : FS) (p text m eol tag : Str
   have hdisk := (C15_disk_bytes c fs p text m eol tag y eol hm hf henc heol).2.1
   simp only [Codec.encode, henc, Option.map_some] at hdisk
   by_cases hstd : isStdEol eol = true
-  · rw [loadFile_text c _ p eol _ _ hstd hdisk (g.decode_bom_enc henc), univNL_replace eol text hstd hcr]
+  · rw [loadFile_text c _ p eol _ _ hstd hdisk ((decodeStream_bom_append c y).trans (g.decode_bom_enc henc)),
+      univNL_replace eol text hstd hcr]
   · have hstd' : isStdEol eol = false := by simpa using hstd
     obtain ⟨y', hy', hr⟩ := enc_replace_back c g eol ha text hd y henc
     apply loadFile_custom c _ p eol _ _ hstd' hd.1 hdisk
@@ -140,7 +141,7 @@ theorem C15_lines (c : Codec) (g : c.Good) (fs : FS) (p : Str) (ls : List Str) (
     subst hy
     have hd : (fs.write p ([] ++ (if ([] : Bytes).isEmpty && !([] : List Str).isEmpty then c.bom else []) ++ [])) p
         = some [] := by simp [FS.write]
-    rw [loadLines_text c _ p eol [] [] hstd hd (decode_nil c g)]
+    rw [loadLines_text c _ p eol [] [] hstd hd (decodeStream_nil c g)]
     rfl
   | cons l0 ls0 =>
     rw [← hls]
@@ -148,7 +149,7 @@ theorem C15_lines (c : Codec) (g : c.Good) (fs : FS) (p : Str) (ls : List Str) (
     have hdisk2 : (fs.write p ([] ++ (if ([] : Bytes).isEmpty && !ls.isEmpty then c.bom else []) ++ y)) p
         = some (c.bom ++ y) := by rw [hdisk, hne]; simp
     dsimp only
-    rw [loadLines_text c _ p eol _ _ hstd hdisk2 (g.decode_bom_enc henc)]
+    rw [loadLines_text c _ p eol _ _ hstd hdisk2 ((decodeStream_bom_append c y).trans (g.decode_bom_enc henc))]
     rw [univNL_replace eol _ hstd (noCR_unlines ls (fun l hl' => (hl l hl').1)),
       textLines_unlines ls (fun l hl' => (hl l hl').2), List.map_map]
     congr 1
@@ -275,7 +276,7 @@ theorem C15_append_roundtrip (c : Codec) (g : c.Good) (fs : FS) (p s1 s2 m eol t
     · rw [(C15_append_partial c _ p (c.bom ++ y1) s2 eol tag y2 eol hd1 hemp heol e2 (Or.inr hstd)).2]
       simp
   refine ⟨by simp [hdisk, Codec.encode, e12], ?_⟩
-  rw [loadFile_text c _ p eol _ _ hstd hdisk (g.decode_bom_enc e12)]
+  rw [loadFile_text c _ p eol _ _ hstd hdisk ((decodeStream_bom_append c _).trans (g.decode_bom_enc e12))]
   rw [univNL_replace eol _ hstd (by
     unfold NoCR at *; simp only [List.mem_append, not_or]; exact ⟨h1, h2⟩)]
 
